@@ -10,12 +10,9 @@ import (
 	"github.com/hashicorp/consul/internal/verifmc/c01"
 	"github.com/hashicorp/consul/internal/verifmc/c02"
 	"github.com/hashicorp/consul/internal/verifmc/c04"
-	"github.com/hashicorp/consul/internal/verifmc/c05"
 	"github.com/hashicorp/consul/internal/verifmc/c06"
 	"github.com/hashicorp/consul/internal/verifmc/c07"
 	"github.com/hashicorp/consul/internal/verifmc/c08"
-	"github.com/hashicorp/consul/internal/verifmc/c10"
-	"github.com/hashicorp/consul/internal/verifmc/c13"
 	"github.com/hashicorp/consul/internal/verifmc/c15"
 	"github.com/hashicorp/consul/internal/verifmc/c18"
 	"github.com/hashicorp/consul/internal/verifmc/c20"
@@ -31,12 +28,9 @@ var checks = map[string]checkDef{
 	"C01": {"model_checking", c01.Run},
 	"C02": {"model_checking", c02.Run},
 	"C04": {"model_checking", c04.Run},
-	"C05": {"model_checking", c05.Run},
 	"C06": {"model_checking", c06.Run},
 	"C07": {"model_checking", c07.Run},
 	"C08": {"exploration", c08.Run},
-	"C10": {"exploration", c10.Run},
-	"C13": {"exploration", c13.Run},
 	"C15": {"exploration", c15.Run},
 	"C18": {"model_checking", c18.Run},
 	"C20": {"fault_enumeration", c20.Run},
